@@ -298,10 +298,13 @@ where
 
     #[inline(always)]
     fn try_get_len(&self) -> Option<usize> {
+        // the counter must be read before the completed flag:
+        // skip_to_end sets the flag before it resets the counter, hence a counter value which is
+        // reset (and possibly wrapped around by later pulls) is only observed together with the flag
+        let current = <Self as AtomicIter<_>>::counter(self).current();
         match self.completed.load(atomic::Ordering::SeqCst) {
             true => Some(0),
             false => self.initial_len.map(|initial_len| {
-                let current = <Self as AtomicIter<_>>::counter(self).current();
                 match current.cmp(&initial_len) {
                     std::cmp::Ordering::Less => initial_len - current,
                     _ => 0,
